@@ -30,7 +30,19 @@ def parseClass? : String → Option AddrClass
 def parseBool? : String → Option Bool
   | "1" => some true | "0" => some false | _ => none
 
-def chainOf (hist : String) : Spec.ChainParams := (runHistory (splitList hist ',')).params
+/-- the SelectParams calls a case makes before its action: a history that starts with the marker
+    `@fresh` runs in freshly imported modules (no call before the listed ones); any other history is
+    run by the harness after its reset call `SelectParams('mainnet')` -/
+def histNames (hist : String) : List String :=
+  match splitList hist ',' with
+  | "@fresh" :: r => r
+  | l => "mainnet" :: l
+
+def chainOf (hist : String) : Spec.ChainParams := (runHistory (histNames hist)).params
+
+def coreKind : CoreObj → String
+  | .full _ => "same-object"
+  | .coreOnly _ => "core-only"
 
 /-- address, its text and its scriptPubKey under `chain` -/
 def showFull (chain : Spec.ChainParams) (r : Res Addr) : String :=
@@ -42,13 +54,18 @@ def handle (op : String) (args : List String) : Option String :=
   match op, args with
   -- the state a history leaves, and the outcome of every call
   | "c12.select", [hist] => some <|
-      let names := splitList hist ','
+      let names := histNames hist
       let step := fun (acc : ChainState × List String) n =>
         let (st, e) := selectParams acc.1 n
         (st, acc.2 ++ [match e with | none => "ok" | some e => "err:" ++ e.family])
       let (st, outs) := names.foldl step (initState, [])
-      st.params.name ++ "," ++ st.coreparams.name ++ "," ++ st.params.bech32Hrp ++ "," ++
-        toString st.params.pubkeyAddr ++ "," ++ toString st.params.scriptAddr ++ "|" ++ joinWith "," outs
+      -- the reset call of a non-fresh case is not part of the reported outcomes
+      let outs := match splitList hist ',' with
+        | "@fresh" :: _ => outs
+        | _ => outs.drop 1
+      st.params.name ++ "," ++ st.coreparams.fields.name ++ "," ++ coreKind st.coreparams ++ "," ++
+        st.params.bech32Hrp ++ "," ++ toString st.params.pubkeyAddr ++ "," ++ toString st.params.scriptAddr ++
+        "|" ++ joinWith "," outs
   -- standard script → address → text → address → script
   | "c12.conv", [hist, tmpl, payload] => some <| match parseClass? tmpl, parseHex? payload with
       | some t, some p =>
@@ -79,7 +96,7 @@ def handle (op : String) (args : List String) : Option String :=
   -- an address object created under one selection and used under another
   | "c12.stale", [hist1, spk, hist2] => some <| match parseHex? spk with
       | some spk =>
-        let st1 := runHistory (splitList hist1 ',')
+        let st1 := runHistory (histNames hist1)
         let st2 := (splitList hist2 ',').foldl (fun st n => (selectParams st n).1) st1
         (match fromScript H160 st1.params spk with
          | .error e => "err:" ++ e.family
